@@ -48,14 +48,24 @@ func zzRoundTrip(v Value, label string) Value {
 	var back Value
 	var err error
 	left := 0
-	if sym.Choose("source-kind", 2) == 0 {
+	switch sym.Choose("source-kind", 3) {
+	case 0:
 		r := bytes.NewReader(wire)
 		back, err = NewValue(r)
 		left = r.Len()
-	} else {
+	case 1:
 		r := &zzPlainReader{data: wire}
 		back, err = NewValue(r)
 		left = len(r.data) - r.pos
+	default:
+		// a receive buffer that is overwritten by the next message while the decoded value is still held
+		store := append([]byte{}, wire...)
+		b := bytes.NewBuffer(store)
+		back, err = NewValue(b)
+		left = b.Len()
+		for i := range store {
+			store[i] = 0x5C
+		}
 	}
 	sym.Assert(err == nil, label+"/decode-ok")
 	if err != nil {
